@@ -478,9 +478,38 @@ func TestVerifC06(t *testing.T) {
 				hdOp{K: "hello", C: 2, Ht: "resume", Id: &hdIdRef{T: "pub", C: 1}},
 				hdOp{K: "connect", C: 3, Addr: 8}, hdOp{K: "hello", C: 3, Ht: "resume", Id: &hdIdRef{T: "priv", C: 1}},
 				hdOp{K: "hello", C: 2, Ht: "resume", Id: &hdIdRef{T: "priv", C: 1}})
-			return append([]*hdCase{{Id: 0, Mode: 1, Ops: ops}, {Id: 1, Mode: 1, Ops: gone}, {Id: 2, Mode: 1, Ops: chat}, {Id: 3, Mode: 1, Ops: lost},
+			// a resume whose connection is cut (for the server's writes) while the queue is flushed: after the reply and
+			// k-1 of the n queued messages. More is addressed to the session while the server still believes it
+			// connected; then the connection drops and a third one resumes - or takes the session over, or is itself
+			// cut during its flush and a fourth one resumes. The connections together got everything, in order, once.
+			cut := func(k int, second string) []hdOp {
+				o := []hdOp{{K: "connect", C: 1}, {K: "connect", C: 2}, {K: "connect", C: 9}, {K: "hello", C: 1, B: 0, U: 1}, {K: "hello", C: 2, B: 0, U: 2}, {K: "hello", C: 9, B: 0, U: 3},
+					hdJoinOp(1, 1, 1), hdJoinOp(2, 1, 2), hdJoinOp(9, 1, 3), {K: "drop", C: 2},
+					{K: "msg", C: 1, To: hdToSession(2), Tag: 51}, {K: "msg", C: 9, To: &hdRecipient{T: "room"}, Tag: 52}, {K: "ctl", C: 1, To: hdToSession(2), Tag: 53},
+					{K: "msg", C: 9, To: &hdRecipient{T: "user", U: 2}, Tag: 54}, {K: "msg", C: 1, To: hdToSession(2), Tag: 55},
+					{K: "connect", C: 3}, {K: "wfail", C: 3, After: k}, {K: "hello", C: 3, Ht: "resume", Id: &hdIdRef{T: "priv", C: 2}},
+					{K: "msg", C: 1, To: hdToSession(2), Tag: 56}, {K: "msg", C: 9, To: &hdRecipient{T: "room"}, Tag: 57}}
+				switch second {
+				case "drop":
+					o = append(o, hdOp{K: "drop", C: 3}, hdOp{K: "msg", C: 1, To: hdToSession(2), Tag: 58},
+						hdOp{K: "connect", C: 4}, hdOp{K: "hello", C: 4, Ht: "resume", Id: &hdIdRef{T: "priv", C: 2}})
+				case "take":
+					o = append(o, hdOp{K: "connect", C: 4}, hdOp{K: "hello", C: 4, Ht: "resume", Id: &hdIdRef{T: "priv", C: 2}}, hdOp{K: "drop", C: 3})
+				default: // cut again
+					o = append(o, hdOp{K: "drop", C: 3}, hdOp{K: "connect", C: 5}, hdOp{K: "wfail", C: 5, After: 2}, hdOp{K: "hello", C: 5, Ht: "resume", Id: &hdIdRef{T: "priv", C: 2}},
+						hdOp{K: "drop", C: 5}, hdOp{K: "connect", C: 4}, hdOp{K: "hello", C: 4, Ht: "resume", Id: &hdIdRef{T: "priv", C: 2}})
+				}
+				return append(o, hdOp{K: "msg", C: 1, To: hdToSession(4), Tag: 59}, hdOp{K: "msg", C: 4, To: &hdRecipient{T: "room"}, Tag: 60},
+					hdOp{K: "drop", C: 4}, hdOp{K: "msg", C: 1, To: hdToSession(2), Tag: 61}, hdOp{K: "connect", C: 6}, hdOp{K: "hello", C: 6, Ht: "resume", Id: &hdIdRef{T: "priv", C: 2}})
+			}
+			var cuts []*hdCase
+			for k := 1; k <= 6; k++ {
+				cuts = append(cuts, &hdCase{Id: 40 + k, Mode: 1, Ops: cut(k, []string{"drop", "take", "again"}[k%3])})
+			}
+			cuts = append(cuts, &hdCase{Id: 48, Mode: 1, Ops: cut(2, "take")}, &hdCase{Id: 49, Mode: 1, Ops: cut(3, "again")}, &hdCase{Id: 50, Mode: 1, Ops: cut(5, "drop")})
+			return append(append([]*hdCase{{Id: 0, Mode: 1, Ops: ops}, {Id: 1, Mode: 1, Ops: gone}, {Id: 2, Mode: 1, Ops: chat}, {Id: 3, Mode: 1, Ops: lost},
 				{Id: 4, Mode: 1, Ops: dis}, {Id: 5, Mode: 1, Ops: kick}, {Id: 6, Mode: 1, Ops: w(false)}, {Id: 7, Mode: 1, Ops: w(true)}, {Id: 8, Mode: 1, Ops: thr}},
-				hdHeldJoinCases(9)...)
+				hdHeldJoinCases(9)...), cuts...)
 		}})
 }
 
